@@ -179,6 +179,9 @@ def plan(tier, seed):
     for pid in sorted(corpus.corpus()):
         for sh in range(b["shards"]):
             tasks.append(("lay", tier, pid, sh, b["shards"]))
+    for name, prog, only in layout.focus_programs():
+        for sh in range(b["shards"]):
+            tasks.append(("lay", tier, "F/" + name, sh, b["shards"]))
     return tasks
 
 
@@ -231,11 +234,10 @@ def lay_sig(kind, feats):
 def run_lay(task):
     _, tier, pid, shard, nshards = task
     res = Result()
-    prog = corpus.corpus()[pid]
-    opts = {"styles": layout.STYLES_FULL if BOUNDS[tier].get("styles") == "full" else layout.STYLES_QUICK}
+    prog, opts, kk = _lay_setup(tier, pid)
     stats = {}
     n = 0
-    for vec, ch, lay in explore.explore(lambda ch: layout.render_free(prog, ch, opts), BOUNDS[tier]["layout_k"], stats):
+    for vec, ch, lay in explore.explore(lambda ch: layout.render_free(prog, ch, opts), kk, stats):
         n += 1
         if n % nshards != shard:
             continue
@@ -256,6 +258,14 @@ def run_lay(task):
     return res
 
 
+def _lay_setup(tier, pid):
+    if pid.startswith("F/"):
+        name, prog, only = [f for f in layout.focus_programs() if "F/" + f[0] == pid][0]
+        return prog, {"only": only, "styles": layout.STYLES_FOCUS, "case": False, "indents": False}, (2 if tier == "quick" else 3)
+    prog = corpus.corpus()[pid]
+    return prog, {"styles": layout.STYLES_FULL if BOUNDS[tier].get("styles") == "full" else layout.STYLES_QUICK}, BOUNDS[tier]["layout_k"]
+
+
 def run(task):
     return run_ops(task) if task[0] == "ops" else run_lay(task)
 
@@ -273,8 +283,6 @@ def replay(case):
         finally:
             shutil.rmtree(tmp, ignore_errors=True)
         return [{"sig": "C12|ops:%s|%s|ic=%s" % (v[0], case["name"], case["ic"]), "detail": v[1]}] if v else []
-    prog = corpus.corpus()[case["pid"]]
-    tier = case["tier"]
-    opts = {"styles": layout.STYLES_FULL if BOUNDS[tier].get("styles") == "full" else layout.STYLES_QUICK}
+    prog, opts, kk = _lay_setup(case["tier"], case["pid"])
     ch, lay = explore.run(lambda ch: layout.render_free(prog, ch, opts), case["vec"])
     return [{"sig": lay_sig(k, lay.features), "detail": d} for k, d in judge_layout(lay)]
